@@ -452,7 +452,10 @@ func calcPacketAdaptationFieldLength(af *PacketAdaptationField) (length uint8) {
 	if af.HasAdaptationExtensionField {
 		length += 1 + calcPacketAdaptationFieldExtensionLength(af.AdaptationExtensionField)
 	}
-	length += uint8(af.StuffingLength)
+	// Same as in packetAdaptationFieldSize and as in what is written: a negative stuffing length is no stuffing
+	if af.StuffingLength > 0 {
+		length += uint8(af.StuffingLength)
+	}
 	return
 }
 
